@@ -1,4 +1,182 @@
-(* C10 — stub, replaced once the proofs exist *)
-From WK Require Import Base.Base Model.ReadBounds.
-Example c10_stub : C10_monitor (C10Hist []) = 0.
-Proof. vm_compute. reflexivity. Qed.
+(* C10 — Reads respect the committed and retention boundaries; the retention
+   boundaries never move backwards; physical trim is gated.
+   Only statements, each closed by [exact] of a lemma from Proof/ReadBounds*.v. *)
+From WK Require Import Base.Base Gen.Consts_C10 Model.ReadBounds
+  Proof.ReadBounds Proof.ReadBounds_trim Proof.ReadBounds_monitor.
+Open Scope N_scope.
+
+(* ---- reads ---------------------------------------------------------------------- *)
+
+(* readLocalCommitted: for EVERY request (any FromSeq / MaxSeq / MinSeq / Limit / MaxBytes, both
+   directions), any caller-supplied authoritative boundary and any MinISR, over ANY stored rows
+   (holes, any order), every returned message is a stored row strictly above
+   max(authoritative, local) retention and at or below the committed watermark
+   (LEO when MinISR <= 1, min(checkpoint HW, LEO) otherwise).
+   Hypothesis: no stored row carries sequence 2^64-1 (nextSeq saturates there). *)
+Theorem c10_read_window : forall s q retention minISR m,
+  rows_below_max s ->
+  In m (fst (readLocalCommitted s q retention minISR)) ->
+  In m (s_rows s)
+  /\ N.max retention (s_local s) < row_seq m
+  /\ row_seq m <= committed_of s minISR.
+Proof. exact readLocalCommitted_window. Qed.
+Print Assumptions c10_read_window.
+
+(* SyncMessages (message_reader.go on top of readLocalCommitted): every returned sequence is that
+   of a stored row inside the same window whose SyncOnce flag is false — recovery barrier /
+   command-sync records never appear in a sync page (c10_no_barrier) *)
+Theorem c10_sync_window_no_barrier : forall s y retention minISR x,
+  rows_below_max s ->
+  In x (fst (SyncMessages s y retention minISR)) ->
+  exists m, In m (s_rows s) /\ row_seq m = x /\ row_sync m = false
+            /\ N.max retention (s_local s) < x /\ x <= committed_of s minISR.
+Proof. exact SyncMessages_window. Qed.
+Print Assumptions c10_sync_window_no_barrier.
+
+(* the store adapter emits only rows passing the request's MinSeq floor and MaxSeq cap (when non-zero) *)
+Theorem c10_adapter_floor_and_cap : forall s q m,
+  In m (fst (ReadCommitted s q)) ->
+  In m (s_rows s) /\ (q_min q <> 0 -> q_min q <= row_seq m) /\ (q_max q <> 0 -> row_seq m <= q_max q).
+Proof. exact ReadCommitted_spec. Qed.
+Print Assumptions c10_adapter_floor_and_cap.
+
+(* ---- boundaries are monotone ------------------------------------------------------- *)
+
+(* one step of ANY kind (append, HW/meta change, checkpoint, retention apply with any — also
+   regressing — boundary, direct adopt / trim with any arguments, reads): the store's local and
+   physical boundaries and the runtime's RetentionThroughSeq / Local / Physical never decrease;
+   a row disappears only through an Apply or Trim step, and then only as [deletion_ok] allows *)
+Theorem c10_boundary_monotone_step : forall y o y1 res,
+  step y o = (y1, res) ->
+  boundaries_le y y1
+  /\ s_leo (y_store y) <= s_leo (y_store y1)
+  /\ (forall r, In r (s_rows (y_store y)) -> ~ In r (s_rows (y_store y1)) -> deletion_ok y o r).
+Proof. exact step_spec. Qed.
+Print Assumptions c10_boundary_monotone_step.
+
+(* over whole histories, from any state *)
+Theorem c10_boundary_monotone : forall ops y, boundaries_le y (run y ops).
+Proof. exact run_boundaries_le. Qed.
+Print Assumptions c10_boundary_monotone.
+
+(* handleApplyRetentionBoundary publishes RetentionThroughSeq := max(old, request) *)
+Theorem c10_apply_publishes_max : forall y through mm mb y1 res,
+  apply_retention y through mm mb = (y1, res) -> through <> 0 ->
+  r_retention (y_r y1) = N.max (r_retention (y_r y)) through.
+Proof. exact apply_raises_retention. Qed.
+Print Assumptions c10_apply_publishes_max.
+
+(* ---- trim gate ------------------------------------------------------------------------ *)
+
+(* retentionTrimDecision: allowed implies every gate; the ISR clause uses the code's own
+   notion of a member's progress (isr_match: local LEO, recorded Progress.Match, and — for a
+   member WITHOUT recorded progress — RetentionThroughSeq) *)
+Theorem c10_trim_gated : forall st through c,
+  retentionTrimDecision st through = (true, c) ->
+  through <> 0 /\ r_phys st < through
+  /\ through <= r_hw st /\ through <= r_ckpt st /\ through <= r_leo st
+  /\ (r_role st = RoleLeader -> forall n, In n (r_isr st) -> through <= isr_match st n).
+Proof. exact trim_gated. Qed.
+Print Assumptions c10_trim_gated.
+
+(* the ISR clause for members whose progress is actually known *)
+Theorem c10_trim_gated_known_progress : forall st through c,
+  retentionTrimDecision st through = (true, c) -> r_role st = RoleLeader ->
+  forall n m, In n (r_isr st) -> known_progress st n = Some m -> through <= m.
+Proof. exact trim_gated_known_progress. Qed.
+Print Assumptions c10_trim_gated_known_progress.
+
+(* a row deleted by a retention Apply is covered by HW, CheckpointHW and LEO of the runtime
+   state the Apply started from and, on a leader, by every ISR member's known progress *)
+Theorem c10_deletion_covered : forall y through mm mb r,
+  deletion_ok y (OApply through mm mb) r ->
+  let st := y_r y in
+  row_seq r <= r_hw st /\ row_seq r <= r_ckpt st /\ row_seq r <= r_leo st
+  /\ (r_role st = RoleLeader ->
+      forall n m, In n (r_isr st) -> known_progress st n = Some m -> row_seq r <= m).
+Proof. exact apply_deletion_gated. Qed.
+Print Assumptions c10_deletion_covered.
+
+(* store side (TrimMessagesThroughLimit -> trimPrefixThroughLimit, adoptBoundary = false): only rows in
+   (physical, through] are deleted and only when through is already adopted; local never changes,
+   physical never decreases and never passes max(physical, through) *)
+Theorem c10_store_trim : forall s through mm mb s1 e tr,
+  TrimMessagesThrough s through mm mb = (s1, e, tr) ->
+  s_local s1 = s_local s /\ s_phys s <= s_phys s1 /\ s_leo s <= s_leo s1
+  /\ s_ckpt s1 = s_ckpt s /\ s_rmax s <= s_rmax s1 /\ s_phys s1 <= N.max (s_phys s) through
+  /\ (forall r, In r (s_rows s1) -> In r (s_rows s))
+  /\ (forall r, In r (s_rows s) -> ~ In r (s_rows s1) ->
+        e = 0 /\ s_phys s < row_seq r /\ row_seq r <= through /\ through <= s_local s).
+Proof. exact Trim_spec. Qed.
+Print Assumptions c10_store_trim.
+
+(* ---- the monitor is the property the theorems are about ------------------------------ *)
+
+(* every trace the model can produce (any op list; the log stays below 2^64-1) is accepted by
+   the monitor that ./check evaluates on implementation traces, and replays without mismatch *)
+Theorem c10_model_satisfies_monitor : forall ops,
+  leo_bounded init_sys ops = true -> C10_monitor (C10Hist (trace init_sys ops)) = 0.
+Proof. exact model_satisfies_monitor. Qed.
+Print Assumptions c10_model_satisfies_monitor.
+
+Theorem c10_model_trace_replays : forall ops y, replay_mismatch y (trace y ops) = false.
+Proof. exact trace_replays. Qed.
+Print Assumptions c10_model_trace_replays.
+
+Theorem c10_pure_model_satisfies_monitor : forall st through,
+  let '(a, r) := retentionTrimDecision st through in
+  C10_monitor (C10Pure st through a r (minISRMatchOffset st)) = 0.
+Proof. exact pure_model_satisfies_monitor. Qed.
+Print Assumptions c10_pure_model_satisfies_monitor.
+
+(* ---- non-vacuity ------------------------------------------------------------------------ *)
+
+(* ex_ops / ex_snap are defined at the end of Proof/ReadBounds_monitor.v *)
+Example c10_example_run :
+  leo_bounded init_sys ex_ops = true
+  /\ map o_res (trace init_sys ex_ops) =
+     [ RUnit; RAppend 0 1 4; RUnit; RErr 0;
+       RRead 0 [(1, false); (2, true); (3, false)] 4;
+       RSync 0 [1; 3] false;
+       RApply 0 2 2 2 2 2 false 0 false true true;
+       RRead 0 [(4, false); (3, false)] 2;
+       RApply 0 1 2 2 0 0 false 0 false false false;
+       RApply 0 4 4 2 0 0 false 2 true true false ]
+  /\ map row_seq (s_rows (y_store (run init_sys ex_ops))) = [3; 4]
+  /\ C10_monitor (C10Hist (trace init_sys ex_ops)) = 0.
+Proof. vm_compute. repeat split; reflexivity. Qed.
+
+(* the monitor is not trivially 0: a page with a message above the committed watermark, a page below
+   the retention boundary, a SyncOnce record in a sync page, a regressing boundary and an ungated
+   deletion are each rejected *)
+Example c10_monitor_rejects :
+  let st := mkRState RoleLeader 1 [1; 2] [(2, 1)] 3 3 3 0 0 0 in
+  let pre := ex_snap [1; 2; 3] 2 1 st in
+  monitor_steps pre [] [mkStep (ORead (mkReq 0 0 0 10 0 false) 0 2) (RRead 0 [(2, false); (3, false)] 4) pre] = 1
+  /\ monitor_steps pre [] [mkStep (ORead (mkReq 0 0 0 10 0 false) 0 2) (RRead 0 [(1, false); (2, false)] 3) pre] = 1
+  /\ monitor_steps pre [2] [mkStep (OSync 0 0 0 10 PullModeUp 0 2) (RSync 0 [2] false) pre] = 1
+  /\ monitor_steps pre [] [mkStep (OAdopt 1) (RAdopt 0 3) (ex_snap [1; 2; 3] 2 0 st)] = 1
+  /\ monitor_steps pre [] [mkStep (OApply 2 0 0) (RApply 0 2 2 2 2 2 false 0 false true true)
+                             (mkSnap [3] 3 2 2 2 3 (mkRState RoleLeader 1 [1; 2] [(2, 1)] 3 3 3 2 2 2))] = 1
+  /\ monitor_steps pre [] [mkStep (ORead (mkReq 0 0 0 10 0 false) 0 2) (RRead 0 [(2, false)] 3) pre] = 0.
+Proof. vm_compute. repeat split; reflexivity. Qed.
+
+(* fixed finding C10-K1 (repo commit d06215a91): forward read, FromSeq = 0, committed watermark 0.
+   The guard returns the empty page; without it the clamped request (MaxSeq = 0 = "unbounded")
+   handed to the store adapter returns every uncommitted row. *)
+Example c10_k1_fixed :
+  let s := fst (fst (AppendLeader empty_store [1; 1; 1] [false; false; false])) in
+  let q := mkReq 0 0 0 10 0 false in
+  committed_of s 2 = 0
+  /\ readLocalCommitted s q 0 2 = ([], 1)
+  /\ map row_seq (fst (ReadCommitted s (clamp_req s q 0 2))) = [1; 2; 3].
+Proof. vm_compute. repeat split; reflexivity. Qed.
+
+(* modelling note of DESIGN §7 C10: for an ISR member WITHOUT recorded progress the decision
+   substitutes RetentionThroughSeq, which handleApplyRetentionBoundary has just raised to the
+   request — the ISR clause is vacuous for such members (here node 2) *)
+Example c10_unknown_progress_is_vacuous :
+  let st := mkRState RoleLeader 1 [1; 2] [] 5 5 5 0 0 0 in
+  retentionTrimDecision (with_retention st 4) 4 = (true, 0)
+  /\ retentionTrimDecision (mkRState RoleLeader 1 [1; 2] [(2, 3)] 5 5 5 4 0 0) 4 = (false, 4).
+Proof. vm_compute. split; reflexivity. Qed.
